@@ -57,7 +57,15 @@ Inductive hp_op :=
    shared Routers itself (HTTPGroup.Register: vhostRouter.Add, no registration number), the last
    member leaving removes it (HTTPGroup.UnRegister: vhostRouter.Del, idle connections kept) *)
 | HGroupJoin (name d l u : bytes) (owner : Z)
-| HGroupLeave (d l u : bytes).
+| HGroupLeave (d l u : bytes)
+(* a request whose routing decision (injectRequestInfoToCtx: pool key) is taken BEFORE, and whose dial
+   (DialContext -> CreateConnection: second route look-up) happens AFTER, the Register / UnRegister
+   [between] of another goroutine; HBegin is the case with nothing in between *)
+| HBeginRaced (rid : Z) (cconn proto : Z) (host path user : bytes) (dialed : bool) (between : hp_op)
+(* an HTTP CONNECT request at the vhost HTTP port (serveRouted -> connectHandler): routed with the
+   empty path and the Proxy-Authorization user, CreateConnection(byEndpoint = false), the connection
+   is hijacked and joined -- never pooled *)
+| HConnect (host user : bytes).
 
 (* remove the first idle connection with this key (Transport.getIdleConn) *)
 Fixpoint hp_take (k : hp_key) (l : list hp_conn) : option (hp_conn * list hp_conn) :=
@@ -74,7 +82,45 @@ Fixpoint hp_take_busy (rid : Z) (l : list (Z * hp_conn)) : option (hp_conn * lis
                     else match hp_take_busy rid l' with Some (c', r) => Some (c', (i, c) :: r) | None => None end
   end.
 
-(* None = the observed Transport choice is not one the model allows *)
+(* Rewrite closure: the pool key of a request, decided when the request is routed *)
+Definition hp_key_of (st : hp_state) (host path user : bytes) : hp_key :=
+  match rt_get_vhost (hp_routes st) (rt_canon_or_empty host) path user with
+  | Some r => let rc := rt_pay r in KRoute (rc_dom rc) (rc_loc rc) (rc_user rc) (rc_endpoint rc) (rc_id rc)
+  | None => KHost host
+  end.
+
+(* Transport.RoundTrip with a decided key: reuse an idle connection of that key, or
+   DialContext -> CreateConnection (route looked up again, its CreateConnFn called).
+   None = the observed Transport choice is not one the model allows *)
+Definition hp_roundtrip (st : hp_state) (key : hp_key) (rid : Z) (host path user : bytes) (dialed : bool)
+  : option (hp_state * hp_out) :=
+  if dialed then
+    match rt_get_vhost (hp_routes st) (rt_canon_or_empty host) path user with
+    | Some r =>
+        let c := mkConn key (rc_owner (rt_pay r)) in
+        Some (mkHp (hp_routes st) (hp_seq st) (hp_idle st) ((rid, c) :: hp_busy st), HReached (cn_backend c))
+    | None => Some (st, HNotFound)       (* ErrNoRouteFound -> ErrorHandler -> 404 *)
+    end
+  else
+    match hp_take key (hp_idle st) with
+    | Some (c, idle') =>
+        Some (mkHp (hp_routes st) (hp_seq st) idle' ((rid, c) :: hp_busy st), HReached (cn_backend c))
+    | None => None
+    end.
+
+(* Register / UnRegister as state transformers (anything else: identity) *)
+Definition hp_reg_step (st : hp_state) (o : hp_op) : hp_state :=
+  match o with
+  | HRegister d l u owner =>
+      let id := hp_seq st + 1 in
+      match rt_add (hp_routes st) d l u (mkRc d l u owner id []) with
+      | Some rs => mkHp rs id (hp_idle st) (hp_busy st)
+      | None => mkHp (hp_routes st) id (hp_idle st) (hp_busy st)
+      end
+  | HUnRegister d l u => mkHp (rt_del (hp_routes st) d l u) (hp_seq st) [] (hp_busy st)
+  | _ => st
+  end.
+
 Definition hp_step (st : hp_state) (o : hp_op) : option (hp_state * hp_out) :=
   match o with
   | HRegister d l u owner =>
@@ -88,26 +134,10 @@ Definition hp_step (st : hp_state) (o : hp_op) : option (hp_state * hp_out) :=
       (* vhostRouter.Del(...); transport.CloseIdleConnections() *)
       Some (mkHp (rt_del (hp_routes st) d l u) (hp_seq st) [] (hp_busy st), HDone)
   | HBegin rid _ _ host path user dialed =>
-      let domain := rt_canon_or_empty host in
       (* injectRequestInfoToCtx: rc := GetRouteConfig(CanonicalHost(req.Host), req.URL.Path, user) *)
-      let key := match rt_get_vhost (hp_routes st) domain path user with
-                 | Some r => let rc := rt_pay r in KRoute (rc_dom rc) (rc_loc rc) (rc_user rc) (rc_endpoint rc) (rc_id rc)
-                 | None => KHost host
-                 end in
-      if dialed then
-        (* DialContext -> CreateConnection: the route is looked up again, its CreateConnFn is called *)
-        match rt_get_vhost (hp_routes st) domain path user with
-        | Some r =>
-            let c := mkConn key (rc_owner (rt_pay r)) in
-            Some (mkHp (hp_routes st) (hp_seq st) (hp_idle st) ((rid, c) :: hp_busy st), HReached (cn_backend c))
-        | None => Some (st, HNotFound)       (* ErrNoRouteFound -> ErrorHandler -> 404 *)
-        end
-      else
-        match hp_take key (hp_idle st) with
-        | Some (c, idle') =>
-            Some (mkHp (hp_routes st) (hp_seq st) idle' ((rid, c) :: hp_busy st), HReached (cn_backend c))
-        | None => None
-        end
+      hp_roundtrip st (hp_key_of st host path user) rid host path user dialed
+  | HBeginRaced rid _ _ host path user dialed between =>
+      hp_roundtrip (hp_reg_step st between) (hp_key_of st host path user) rid host path user dialed
   | HEnd rid =>
       match hp_take_busy rid (hp_busy st) with
       | Some (c, busy') => Some (mkHp (hp_routes st) (hp_seq st) (c :: hp_idle st) busy', HDone)
@@ -120,6 +150,11 @@ Definition hp_step (st : hp_state) (o : hp_op) : option (hp_state * hp_out) :=
       end
   | HGroupLeave d l u =>
       Some (mkHp (rt_del (hp_routes st) d l u) (hp_seq st) (hp_idle st) (hp_busy st), HDone)
+  | HConnect host user =>
+      match rt_get_vhost (hp_routes st) (rt_canon_or_empty host) [] user with
+      | Some r => Some (st, HReached (rc_owner (rt_pay r)))
+      | None => Some (st, HNotFound)      (* NotFoundResponse written to the hijacked connection *)
+      end
   end.
 
 (* run a history; None as soon as one step is not allowed *)
